@@ -21,7 +21,7 @@ ASSUMPTIONS = [
     "produced non-reproducing candidates, so it is not part of the check (their reduction step is C12's subject)",
 ]
 OUTSIDE = ["sequence lengths above the bound", "window/step/word sizes above the bound", "user alphabets inside complexity profiles (their reduction is C12's subject)", "K > 64 / seq_len > 10000 for the position row arithmetic"]
-NMAX = {"quick": 5, "thorough": 6}
+NMAX = {"quick": 5, "thorough": 7}
 KMAX = {"quick": 64, "thorough": 256}
 ITEM_TIMEOUT = {"quick": 900, "thorough": 3400}
 LCSIZES = {"quick": [2, 20], "thorough": [2, 3, 5, 8, 12, 20]}
